@@ -3,10 +3,57 @@
    closedness verdict applied to EVERY variant is exact (C06's checker, sound and complete),
    so "all texts are closed" is decided per variant by proof, not by execution.  The equality
    of the computed tensors across variants is kernel-evaluated execution (tools/props/c08.py);
-   the order-insensitivity of hoisting for any topological order is property C10's theorem. *)
-From Coq Require Import List.
+   the order-insensitivity of hoisting for any topological order is property C10's theorem.
+
+   Two of the three order-dependent mechanisms the property names ARE quantified over all
+   orders at model level (models tied to the code by C10's and C19's correspondence checks):
+   - the topological sort's tie-break (hash(repr(node))): whatever topological order the sort
+     returns, hoisting yields a legal statement order with the loops bracketed in loop order
+     (C08_any_tie_break_order_ok_partial), and two tie-breaks yield the SAME statements
+     (C08_two_tie_breaks_same_statements_partial);
+   - the set of partitioned ranks iterated to expand the default loop order: every iteration
+     order of that set gives the same expansion (C08_partition_set_order_irrelevant_partial).
+   `_partial`: the third mechanism (sets of traces iterated to emit registrations) and the
+   equality of the tensors computed by two legal statement orders are not theorems. *)
+From Coq Require Import String List Bool PArith Arith Permutation.
 Require Import TV.Model.Py TV.Model.Closed TV.Proofs.ClosedProofs.
+Require TV.Model.FlowOrder TV.Proofs.FlowOrderProofs TV.Model.Defaults TV.Proofs.DefaultsProofs.
+Import ListNotations.
 
 Theorem C08_variant_closedness_decided_partial : forall ss B,
   (exists D, da_block B ss = Some D) <-> ~ sem_block B ss Unbound.
 Proof. exact da_block_decides. Qed.
+
+Section TieBreak.
+Import TV.Model.FlowOrder TV.Proofs.FlowOrderProofs.
+
+(* every topological order the seed-dependent sort may return *)
+Theorem C08_any_tie_break_order_ok_partial : forall g loops body ends l,
+  topo g l -> In body l -> length loops = length ends ->
+  (forall a b, In (a, b) (chain_edges (chain loops body ends)) -> In (a, b) g) ->
+  let l' := hoist g loops l in
+  Permutation l' l /\ topo g l' /\
+  filter (fun x => memb x (chain loops body ends)) l' = chain loops body ends /\
+  exists ts, trans_nodes (classify loops ends) l' = Some ts /\
+             flat_forest 0 ts = toks (classify loops ends) 0 l'.
+Proof. exact hoisted_order_ok. Qed.
+
+(* two seeds: two sorts of the same node set; the hoisted lists hold the same statements, each once *)
+Theorem C08_two_tie_breaks_same_statements_partial : forall g loops l1 l2,
+  Permutation l1 l2 -> Permutation (hoist g loops l1) (hoist g loops l2).
+Proof.
+  intros g loops l1 l2 H.
+  eapply Permutation_trans; [apply hoist_perm|].
+  eapply Permutation_trans; [exact H|]. apply Permutation_sym, hoist_perm.
+Qed.
+End TieBreak.
+
+Section SetOrder.
+Import TV.Model.Defaults TV.Proofs.DefaultsProofs.
+
+(* the set of partitioned ranks may be iterated in any order ps' *)
+Theorem C08_partition_set_order_irrelevant_partial : forall ps ps' ranks fuel,
+  NoDup (map fst ps) -> fresh_b ps = true -> NoDup ranks -> Permutation ps ps' -> 2 <= fuel ->
+  part_loop fuel ps' ranks = Some (expand ps ranks).
+Proof. exact part_loop_expand. Qed.
+End SetOrder.
